@@ -1407,6 +1407,14 @@ _vbi_cache_foreach_page		(vbi_cache *		ca,
 				--ps;
 
 				if (pgno < 0x100) {
+					/* Wrapping a second time we
+					   have seen all pages. The
+					   callback cannot notice that
+					   when no page lies at or beyond
+					   its stop position. */
+					if (wrapped)
+						return -1; /* all done */
+
 					pgno = 0x8FF;
 					ps = cache_network_page_stat(cn, pgno);
 					wrapped = TRUE;
@@ -1418,6 +1426,9 @@ _vbi_cache_foreach_page		(vbi_cache *		ca,
 				++ps;
 
 				if (pgno > 0x8FF) {
+					if (wrapped)
+						return -1; /* all done */
+
 					pgno = 0x100;
 					ps = cache_network_page_stat(cn, pgno);
 					wrapped = TRUE;
